@@ -45,7 +45,8 @@ EXPLANATION = (
     'and the sites that declare a namespace routes class agree with the sites that reference '
     'it; the import collectors unwrap containers alike. Decides these structural necessary '
     'conditions; does not decide lexical well-formedness of the whole output nor uniqueness of '
-    'generated names.')
+    'generated names.'
+    ' RD (decision drift, stonelint.conddrift): the tests of the functions this property is anchored in (stonelint.ownership) are compared with reference/conditions.json; a relation, polarity or connective changed over the same operands, or an operand purely added or dropped, is a violation; re-spellings and new or removed tests are not claimed.')
 ASSUMPTIONS = [
     'Backends are run with the options and route attributes they require (auth/host/style '
     'attributes present, client-args JSON of the documented shape): sites that only fail '
@@ -115,6 +116,12 @@ def run(pm, ctx):
 
 
 # ---------------------------------------------------------------- R2 + template R5
+
+    from ..conddrift import run_decisions
+    from ..ownership import OWN
+    run_decisions(pm, ctx, 'C17-RD', OWN['C17'])
+
+
 def _signature_ok(fn, nargs, kwargs):
     a = fn.node.args
     params = [x.arg for x in a.posonlyargs + a.args]
